@@ -40,9 +40,28 @@ func runC13(c *Ctx) {
 	logPrefix := filepath.Join(c.Out, "race")
 	cmd := exec.Command(race, "c13stress", "--out", c.Out, "--work", c.Work, "--seed", fmt.Sprint(c.Seed), "--tier", c.Tier)
 	cmd.Env = append(os.Environ(), "GORACE=halt_on_error=0 exitcode=0 log_path="+logPrefix)
-	out, err := cmd.CombinedOutput()
+	out, err := runWithDeadline(cmd, map[bool]time.Duration{false: 4 * time.Minute, true: 12 * time.Minute}[c.Thorough()])
 	if err != nil {
-		c.Fail("", "stress run crashed: "+err.Error()+" "+tail(string(out), 1500), nil)
+		txt := string(out)
+		// of a goroutine dump, the frames inside the code under test and its libraries' locks are what matters
+		var keep []string
+		for _, l := range strings.Split(txt, "\n") {
+			if strings.Contains(l, "caddy-revocation-validator") || strings.Contains(l, "cache2go") || strings.Contains(l, "sync.(*RWMutex)") || strings.Contains(l, "sync.(*Mutex)") {
+				keep = append(keep, strings.TrimSpace(l))
+			}
+		}
+		seen := map[string]int{}
+		var summary []string
+		for _, l := range keep {
+			if i := strings.Index(l, "("); i > 0 {
+				l = l[:i]
+			}
+			seen[l]++
+			if seen[l] == 1 && len(summary) < 25 {
+				summary = append(summary, l)
+			}
+		}
+		c.Fail("", "stress run did not finish or crashed: "+err.Error()+"; frames: "+strings.Join(summary, " | ")+" ... "+tail(txt, 600), map[string]string{"output_tail": tail(txt, 6000)})
 	}
 	var results []c13Result
 	if b, e := os.ReadFile(filepath.Join(c.Out, "c13stress.json")); e == nil {
